@@ -55,6 +55,9 @@ struct Setup {
     queries: Vec<Vec<f32>>, // query vectors (any dimension)
     second_index: bool,     // also declare indexes on (Other, emb) and (Doc, other)
     variant: u64,           // picks among equivalent spellings
+    /// per query: 0 random, 1 old position of a moved node, 2 new position of a moved node,
+    /// 3 old position of a deleted node whose id was recycled
+    qkind: Vec<u8>,
 }
 
 // ---------------- distances in f64 under the declared metric ----------------
@@ -607,6 +610,12 @@ fn run_case(out: &mut Out, s: &Setup, ops: &[Op], kind: &str) {
                 }
                 if len > 128 {
                     out.count("searches_above_128");
+                    match s.qkind.get(*qi).copied().unwrap_or(0) {
+                        1 => out.count("hnsw_query_at_old_position_of_moved_node"),
+                        2 => out.count("hnsw_query_at_new_position_of_moved_node"),
+                        3 => out.count("hnsw_query_at_old_position_of_recycled_id"),
+                        _ => {}
+                    }
                 }
                 match reference.judge(s, *qi, *k, rows, len, &rows_tbl[*qi]) {
                     Ok(ties) => {
@@ -721,7 +730,88 @@ fn gen_setup(r: &mut Rng, npool: usize, fine: bool) -> Setup {
             queries.push(v.clone()); // query equal to a stored vector
         }
     }
-    Setup { cypher, metric, dim, pool, queries, second_index: r.chance(1, 4), variant: r.below(1000) }
+    Setup { cypher, metric, dim, pool, queries, second_index: r.chance(1, 4), variant: r.below(1000), qkind: Vec::new() }
+}
+
+/// An index above 128 entries (the HNSW path): nodes are moved far away from their old vector,
+/// deleted with their id recycled by a new node elsewhere, and the index is queried at the OLD
+/// position (where hnsw_rs still holds the stale point), at the new position and at random.
+fn gen_hnsw(r: &mut Rng) -> (Setup, Vec<Op>) {
+    let cypher = r.chance(1, 3);
+    let metric = if r.chance(1, 2) { Metric::L2 } else { Metric::Cosine };
+    let dim = r.range(2, 4) as usize;
+    let target = r.range(129, 260) as usize;
+    let mut pool: Vec<Vec<f32>> = Vec::new();
+    for _ in 0..target {
+        let mut v = gen_vec(r, dim, true);
+        if v.iter().all(|x| *x == 0.0) {
+            v[0] = 1.0;
+        }
+        pool.push(v);
+    }
+    let far = |v: &Vec<f32>, r: &mut Rng| -> Vec<f32> {
+        match metric {
+            Metric::L2 => {
+                let mut w = v.clone();
+                w[0] += 40.0 + r.range(0, 40) as f32 * 0.5;
+                w[1] -= 30.0 + r.range(0, 40) as f32 * 0.5;
+                w
+            }
+            _ => v.iter().map(|x| -x).collect(),
+        }
+    };
+    let mut queries: Vec<Vec<f32>> = vec![gen_vec(r, dim, true)];
+    let mut qkind: Vec<u8> = vec![0];
+    // node id i+1 holds pool[i]
+    let mut ops: Vec<Op> = (0..target).map(|i| Op::Create(true, Some(PV::Vec(i)))).collect();
+    ops.push(Op::Search(0, r.range(1, 10)));
+    let mut touched: BTreeSet<usize> = BTreeSet::new();
+    let mut old_queries: Vec<usize> = Vec::new();
+    for _ in 0..r.range(5, 10) {
+        let i = r.below(target as u64) as usize;
+        if !touched.insert(i) {
+            continue;
+        }
+        let fv = far(&pool[i], r);
+        pool.push(fv.clone());
+        ops.push(Op::SetProp(i as u64 + 1, PV::Vec(pool.len() - 1)));
+        queries.push(pool[i].clone());
+        qkind.push(1);
+        old_queries.push(queries.len() - 1);
+        ops.push(Op::Search(queries.len() - 1, r.range(1, 10)));
+        if r.chance(1, 2) {
+            queries.push(fv);
+            qkind.push(2);
+            ops.push(Op::Search(queries.len() - 1, r.range(1, 10)));
+        }
+    }
+    for _ in 0..r.range(2, 5) {
+        let i = r.below(target as u64) as usize;
+        if !touched.insert(i) {
+            continue;
+        }
+        ops.push(Op::Delete(i as u64 + 1));
+        let fv = far(&pool[i], r);
+        pool.push(fv);
+        ops.push(Op::Create(true, Some(PV::Vec(pool.len() - 1)))); // takes the freed id
+        queries.push(pool[i].clone());
+        qkind.push(3);
+        old_queries.push(queries.len() - 1);
+        ops.push(Op::Search(queries.len() - 1, r.range(1, 10)));
+    }
+    for _ in 0..2 {
+        queries.push(gen_vec(r, dim, true));
+        qkind.push(0);
+        ops.push(Op::Search(queries.len() - 1, r.range(1, 20)));
+    }
+    // once more at the old positions, after all the other changes
+    for qi in old_queries {
+        if r.chance(1, 2) {
+            ops.push(Op::Search(qi, r.range(1, 25)));
+        }
+    }
+    let s = Setup { cypher, metric, dim, pool, queries, second_index: false, variant: r.below(1000), qkind };
+    (s, ops)
 }
 
 fn gen_pv(r: &mut Rng, s: &Setup) -> PV {
@@ -780,7 +870,9 @@ fn main() {
                 reuse / noise / search with k in {0,1..6,10^6}) over pools of 4-10 vectors of dimension 2-4 (duplicates, \
                 scaled copies, zero, empty, NaN/inf components through the API), metrics cosine/L2 (+ inner product through \
                 the API), both entry points; indexes of 100-128 entries (quick) and 129-400 entries (thorough, HNSW path, \
-                incl. enough updates to force a rebuild). Non-trivial = more than one operation; distinct by case text."
+                incl. enough updates to force a rebuild); hnsw: in both tiers indexes of 129-260 entries (L2 / cosine) where nodes \
+                are moved far away or deleted with their id recycled, queried at the old position, the new position and at \
+                random (live / unique / current distance / sorted judged on every answer). Non-trivial = more than one operation; distinct by case text."
         .to_string();
 
     // ---- exhaustive small scope ----
@@ -814,6 +906,7 @@ fn main() {
             queries: vec![vec![2.0, 0.5]],
             second_index: false,
             variant: 1 + (n as u64 % 7),
+            qkind: Vec::new(),
         };
         let mut ops = vec![Op::Create(true, Some(PV::Vec(1)))]; // node 1 exists from the start
         ops.push(Op::Search(0, 5));
@@ -827,8 +920,19 @@ fn main() {
     // ---- random histories ----
     let n_small: u64 = if args.thorough { 9000 } else { 900 };
     let big_every: u64 = if args.thorough { 120 } else { 180 };
+    let hnsw_every: u64 = if args.thorough { 150 } else { 75 };
     for c in 0..n_small {
         let mut r = Rng::for_case(args.seed, c);
+        if c % hnsw_every == 37 {
+            let (s, ops) = gen_hnsw(&mut r);
+            out.count("hnsw_cases");
+            match s.metric {
+                Metric::L2 => out.count("hnsw_cases_l2"),
+                _ => out.count("hnsw_cases_cosine"),
+            }
+            run_case(&mut out, &s, &ops, "hnsw");
+            continue;
+        }
         if c % big_every == big_every - 1 {
             // a large index: 100-128 entries (quick), 129-400 (thorough)
             let (lo, hi) = if args.thorough { (129, 400) } else { (100, 128) };
